@@ -18,6 +18,18 @@ class Head(packet.Packet):
         formats.UInt8Field('version', default=None),
     ]
 
+    def pre_dissect(self, s):
+        ''' Verify that the fixed-size part is all present. '''
+        if len(s) < 5:
+            raise formats.VerifyError('Contact header is incomplete')
+        return s
+
+    def post_dissection(self, pkt):
+        ''' Verify that the version-specific part is present. '''
+        if not self.payload:
+            raise formats.VerifyError('Contact header without payload')
+        packet.Packet.post_dissection(self, pkt)
+
 
 class ContactV3(formats.NoPayloadPacket):
     ''' TCPCLv3 contact header pseudo-message. '''
